@@ -66,11 +66,11 @@ claims={
   ref="DESIGN 6/C20"),
 }
 na_reason={
- "C01":"dispatch-layer contracts for IsMatch not built yet (leaf engines have no contract within reach; see DESIGN 6/C01)",
- "C02":"dispatch-layer contracts for FindIndices not built yet (currently an assumed contract used by C04)",
- "C15":"UTF-8 range compiler contracts not built yet",
- "C17":"literal Seq algebra contracts not built yet",
- "C19":"specialised searcher contracts not built yet",
+ "C01":"not claimed yet: the boolean dispatch layer (meta/ismatch.go) is not under contract; the leaf engines (PikeVM, lazy DFA, backtracker semantics) have no contract within reach. The regex.go Match adapters are proved equal to Engine.IsMatch under C11.",
+ "C02":"not claimed yet: the span dispatch layer (meta/find_indices.go) is not under contract (its contract is an assumption of C04/C11); leaf engines out of reach.",
+ "C15":"attempted and withdrawn: only Builder.AddByteRange and the 1-byte range are proved; the 2/3/4-byte UTF-8 range functions (shift/mask arithmetic as div/mod plus the builder heap) did not discharge on any installed solver, so no claim is made. Defects seen by probe (4-byte range over-approximation, non-ASCII fold-case literal) are recorded in DESIGN S.3 as undecided by any check.",
+ "C17":"not built: literal.Seq algebra not under contract; the recursive extraction over the syntax tree has no specification within reach (language of an arbitrary AST).",
+ "C19":"not built: specialised searchers not under contract (CharClassSearcher.FindAllIndices only has an assumed shape contract used by C04).",
 }
 checks=[]
 for p in props:
